@@ -168,6 +168,26 @@ CHECKS = {
         technique="TLA+ spec (DataModel.tla) model-checked with TLC; spec->impl replay of every explored document and of "
                   "the include table; independent encoders and decoders as environment",
     ),
+    "C17": dict(
+        category="model_checking",
+        text="Gen.tla plants exactly one fault per program (an ill-typed join, unknown or leaked name, missing field/index, "
+             "unhandled select, failed cast, fail, wrong arity, at any nesting position incl. function and module bodies) "
+             "and records the statement; Translate.tla copies statement positions onto every op where translate.rs copies "
+             "a Position and VM.tla propagates them through the stack and the VIA decoration of nested VMs, so the op "
+             "positions the real translator emits are checked against the model on every C01 replay. For C17 each program "
+             "is laid out over several lines and FileBuilder::eval_string's diagnostic parsed: the primary line must lie "
+             "in the faulty statement's span (or, for a fault planted in a call, that statement must be listed under VIA), "
+             "a fault in a body run from a later statement must list that statement under VIA, and inserting 1..3 "
+             "unrelated statements before the fault must move the line by exactly that much and keep the column. Syntax "
+             "faults are Mutate.tla scripts (delete/duplicate/swap/replace a token) confined to one statement: the parse "
+             "error must lie in that statement or at the first token after it.",
+        design_ref="DESIGN.md §3.4, §4.3, §4.13, §5/C17",
+        note="Trusted: TLC, vp/render.py and the line layout in vp/c17.py, the harness. Element positions inside list values "
+             "are abstracted to the list's position in VM.tla, so the Blame verdict is taken on the real diagnostic, not on "
+             "the model's. Open finding: positions inside @{...} are relative to the template.",
+        technique="TLA+ specs (Gen with fault bookkeeping, Translate/VM positions, Mutate) explored with TLC; spec->impl "
+                  "replay of every faulty program under two layouts",
+    ),
     "C18": dict(
         category="model_checking",
         text="Eval.tla / VM.tla with a process environment (EnvVars) under both Strict values: env.NAME for set and unset "
